@@ -1,6 +1,6 @@
 (* C16: restriction mode after a liquidation.  Statements only. *)
 From MP.Model Require Import Prelude U128 SInt Feed Vamm VammOps Token World Engine Runtime.
-From MP.Proofs Require Import Tactics EngineGuards.
+From MP.Proofs Require Import Tactics EngineGuards MoreFacts.
 
 Theorem C16_guard_blocks : forall w v t,
   vm_lrb (read_vmap (w_eng w) v) = height (w_env w) ->
@@ -24,3 +24,66 @@ Theorem C16_close_is_guarded : forall w t v lim r,
   e_close_position w t v lim = Ok r -> require_not_restriction_mode w v t = Ok tt.
 Proof. exact close_restricted. Qed.
 Print Assumptions C16_close_is_guarded.
+
+(* end to end: marker and stamp both at the current height => the trader's OpenPosition / ClosePosition
+   transaction on that vAMM fails and the world is exactly what it was (for every fault index too) *)
+Theorem C16_restricted_open_changes_nothing : forall f w t v s m l lim funds,
+  vm_lrb (read_vmap (w_eng w) v) = height (w_env w) ->
+  p_block (read_position (w_eng w) v t) = height (w_env w) ->
+  step_f f w (OEngine t (EOpenPosition v s m l lim) funds) = (w, false).
+Proof. exact restricted_open_changes_nothing. Qed.
+Print Assumptions C16_restricted_open_changes_nothing.
+Theorem C16_restricted_close_changes_nothing : forall f w t v lim funds,
+  vm_lrb (read_vmap (w_eng w) v) = height (w_env w) ->
+  p_block (read_position (w_eng w) v t) = height (w_env w) ->
+  step_f f w (OEngine t (EClosePosition v lim) funds) = (w, false).
+Proof. exact restricted_close_changes_nothing. Qed.
+Print Assumptions C16_restricted_close_changes_nothing.
+
+(* the marker is set by a liquidation - full or partial - on that vAMM only, to the current height *)
+Theorem C16_full_liquidation_marks : forall w i o w' msgs tm,
+  liquidate_reply w i o = Ok (w', msgs) -> e_tmp (w_eng w) = Some tm ->
+  vm_lrb (read_vmap (w_eng w') (ts_vamm tm)) = height (w_env w) /\
+  (forall v2, v2 <> ts_vamm tm -> read_vmap (w_eng w') v2 = read_vmap (w_eng w) v2) /\
+  find_position (w_eng w') (ts_vamm tm) (ts_trader tm) = None.
+Proof. exact liquidate_reply_marks. Qed.
+Print Assumptions C16_full_liquidation_marks.
+Theorem C16_partial_liquidation_marks : forall w i o w' msgs tm,
+  partial_liquidation_reply w i o = Ok (w', msgs) -> e_tmp (w_eng w) = Some tm ->
+  vm_lrb (read_vmap (w_eng w') (ts_vamm tm)) = height (w_env w) /\
+  (forall v2, v2 <> ts_vamm tm -> read_vmap (w_eng w') v2 = read_vmap (w_eng w) v2).
+Proof. exact partial_liquidation_reply_marks. Qed.
+Print Assumptions C16_partial_liquidation_marks.
+
+(* no trading reply touches any marker (funding keeps it too: C11_engine_settlement) *)
+Theorem C16_trade_keeps_marker : forall w i o id w' subs, update_position_reply w i o id = Ok (w', subs) -> e_vmap (w_eng w') = e_vmap (w_eng w).
+Proof. exact update_position_reply_lrb. Qed.
+Print Assumptions C16_trade_keeps_marker.
+Theorem C16_reverse_keeps_marker : forall w i o w' subs, reverse_position_reply w i o = Ok (w', subs) -> e_vmap (w_eng w') = e_vmap (w_eng w).
+Proof. exact reverse_position_reply_lrb. Qed.
+Print Assumptions C16_reverse_keeps_marker.
+Theorem C16_close_keeps_marker : forall w i o w' subs, close_position_reply w i o = Ok (w', subs) -> e_vmap (w_eng w') = e_vmap (w_eng w).
+Proof. exact close_position_reply_lrb. Qed.
+Print Assumptions C16_close_keeps_marker.
+Theorem C16_partial_close_keeps_marker : forall w i o w' subs, partial_close_position_reply w i o = Ok (w', subs) -> e_vmap (w_eng w') = e_vmap (w_eng w).
+Proof. exact partial_close_position_reply_lrb. Qed.
+Print Assumptions C16_partial_close_keeps_marker.
+
+(* the stamp: a reversal and a partial close store the current height (increase / reduce:
+   C11_trade_charges_once); a partial liquidation leaves the liquidated position's stamp alone *)
+Theorem C16_reverse_stamps : forall w i o w' subs tm,
+  reverse_position_reply w i o = Ok (w', subs) -> e_tmp (w_eng w) = Some tm ->
+  exists p', find_position (w_eng w') (ts_vamm tm) (ts_trader tm) = Some p' /\ p_block p' = height (w_env w).
+Proof. exact reverse_position_reply_stamps. Qed.
+Print Assumptions C16_reverse_stamps.
+Theorem C16_partial_close_stamps : forall w i o w' subs tm,
+  partial_close_position_reply w i o = Ok (w', subs) -> e_tmp (w_eng w) = Some tm ->
+  exists p', find_position (w_eng w') (ts_vamm tm) (ts_trader tm) = Some p' /\ p_block p' = height (w_env w).
+Proof. exact partial_close_position_reply_stamps. Qed.
+Print Assumptions C16_partial_close_stamps.
+Theorem C16_partial_liquidation_no_stamp : forall w i o w' msgs tm,
+  partial_liquidation_reply w i o = Ok (w', msgs) -> e_tmp (w_eng w) = Some tm ->
+  exists p', find_position (w_eng w') (ts_vamm tm) (ts_trader tm) = Some p' /\
+    p_block p' = p_block (get_position (w_eng w) (w_env w) (ts_vamm tm) (ts_trader tm) (ts_side tm)).
+Proof. exact partial_liquidation_reply_no_stamp. Qed.
+Print Assumptions C16_partial_liquidation_no_stamp.
